@@ -119,11 +119,38 @@ Definition compute_snakes (cmp : json -> json -> bool) (A B : list json) (r : re
   do s <- bruteforce_compute_snakes cmp (slice A i0 i1) (slice B j0 j1);
   Ok (map (fun '(i, j, n) => (i + i0, j + j0, n)) s).
 
+(* one iteration of the loop over coarse snakes in compute_snakes_multilevel;
+   state = (reversed newsnakes, i0, j0), [recur] = the same algorithm one level down *)
+Definition ml_step (recur : rect -> res (list snake)) (st : list snake * nat * nat) (sn : snake)
+  : res (list snake * nat * nat) :=
+  let '(rnew, i0, j0) := st in
+  let '(i, j, n) := sn in
+  do rnew <- (if Nat.ltb i0 i && Nat.ltb j0 j
+              then (do sub <- recur (i0, j0, i, j); Ok (rev sub ++ rnew))
+              else Ok rnew);
+  let rnew :=
+    if Nat.ltb 0 n then
+      match rnew with
+      | (li, lj, ln) :: rest =>
+          if Nat.eqb (li + ln) i && Nat.eqb (lj + ln) j
+          then (li, lj, ln + n) :: rest
+          else sn :: rnew
+      | [] => [sn]
+      end
+    else rnew in
+  Ok (rnew, i + n, j + n).
+
+Fixpoint ml_loop (recur : rect -> res (list snake)) (st : list snake * nat * nat) (l : list snake)
+  : res (list snake * nat * nat) :=
+  match l with
+  | [] => Ok st
+  | sn :: rest => do st' <- ml_step recur st sn; ml_loop recur st' rest
+  end.
+
 Section Multilevel.
   Variable compares : list (json -> json -> bool).
   Variables A B : list json.
 
-  (* state of the loop over coarse snakes: (reversed newsnakes, i0, j0) *)
   Fixpoint snakes_multilevel (level : nat) (r : rect) : res (list snake) :=
     let compare := nth level compares (fun _ _ => false) in
     do snakes <- compute_snakes compare A B r;
@@ -131,31 +158,8 @@ Section Multilevel.
     | 0 => Ok snakes
     | S lvl =>
         let '(i0, j0, i1, j1) := r in
-        do st <- fold_left
-              (fun (acc : res (list snake * nat * nat)) (sn : snake) =>
-                 do st <- acc;
-                 let '(rnew, i0, j0) := st in
-                 let '(i, j, n) := sn in
-                 do rnew <- (if Nat.ltb i0 i && Nat.ltb j0 j
-                             then (do sub <- snakes_multilevel lvl (i0, j0, i, j); Ok (rev sub ++ rnew))
-                             else Ok rnew);
-                 let rnew :=
-                   if Nat.ltb 0 n then
-                     match rnew with
-                     | (li, lj, ln) :: rest =>
-                         if Nat.eqb (li + ln) i && Nat.eqb (lj + ln) j
-                         then (li, lj, ln + n) :: rest
-                         else sn :: rnew
-                     | [] => [sn]
-                     end
-                   else rnew in
-                 Ok (rnew, i + n, j + n))
-              (snakes ++ [(i1, j1, 0)]) (Ok ([(0, 0, 0)], i0, j0));
-        let '(rnew, _, _) := st in
-        match rev rnew with
-        | (_, _, 0) :: rest => Ok rest
-        | l => Ok l
-        end
+        do st <- ml_loop (snakes_multilevel lvl) ([(0, 0, 0)], i0, j0) (snakes ++ [(i1, j1, 0)]);
+        Ok (pop_empty_first (rev (fst (fst st))))
     end.
 End Multilevel.
 
